@@ -15,7 +15,7 @@ from pyvc.engine import Fact, Step, str_lt, str_order_axioms
 from pyvc.registry import ANY, CLASSES, Contract, Loop, declare_ref, lemma, scan, assumption, observation
 from contracts import shapes as S_
 from contracts.c_utils import ETy, OptET, us, t_time, t_unit, mk
-from contracts.c_tasks import TASK
+from contracts.c_tasks import TASK, wf_task
 from contracts.c_simulator import WPS, POOL, PoolMap, WorkerPools
 from contracts.c_handlers import WORKLOAD
 
@@ -66,8 +66,18 @@ Contract(
     ret=TaskList,
     trusted=True,
     allocates=True,
-    ensures=lambda c: c.res >= c.alloc0,
-    note="Workload.get_schedulable_tasks: the offered tasks, as a fresh list (which tasks: C18, bounded taskgraph stand-in)",
+    ensures=lambda c: z3.And(
+        c.res >= c.alloc0,
+        z3.ForAll(
+            [z3.Int("gs_j")],
+            z3.Implies(
+                z3.And(0 <= z3.Int("gs_j"), z3.Int("gs_j") < c.post.c_len(TaskList, c.res)),
+                z3.And(c.post.l_elem(TaskList, c.res, z3.Int("gs_j")) > 0, c.post.l_elem(TaskList, c.res, z3.Int("gs_j")) < c.alloc0, wf_task(c.pre, c.post.l_elem(TaskList, c.res, z3.Int("gs_j")))),
+            ),
+            patterns=[c.post.l_elem(TaskList, c.res, z3.Int("gs_j"))],
+        ),
+    ),
+    note="Workload.get_schedulable_tasks: the offered tasks, as a fresh list (which tasks: C18, bounded taskgraph stand-in); every offered task satisfies the Task representation invariant (preserved by every Task mutator, c_tasks)",
     props=P,
 )
 
@@ -106,16 +116,31 @@ Contract(
     props=P,
 )
 
+def _extreme_strategy_ens(which):
+    def ens(c):
+        lst = c.pre.rd(c.arg("self"), STRATS, "_strategies")[1]
+        n = c.pre.c_len(StratList, lst)
+        j, k = z3.Int(H.fresh_name("xs_j")), z3.Int(H.fresh_name("xs_k"))
+        rt = lambda s_: us(c.pre.rd(s_, STRAT, "_runtime")[1])
+        cmp_ = (lambda a, b: a <= b) if which == "fastest" else (lambda a, b: a >= b)
+        return {
+            which + ".none_iff_empty": (c.res == 0) == (n == 0),
+            which + ".is_a_member": z3.Implies(c.res != 0, z3.Exists([k], z3.And(0 <= k, k < n, c.pre.l_elem(StratList, lst, k) == c.res))),
+            # no member is strictly faster (slower) than the one returned
+            which + ".extremal": z3.Implies(c.res != 0, z3.ForAll([j], z3.Implies(z3.And(0 <= j, j < n), cmp_(rt(c.res), rt(c.pre.l_elem(StratList, lst, j)))), patterns=[c.pre.l_elem(StratList, lst, j)])),
+        }
+
+    return ens
+
+
 Contract(
     "workload.strategy.ExecutionStrategies.get_fastest_strategy",
     params={"self": T.Ref(STRATS)},
     ret=S_.nullable(STRAT),
-    trusted=True,
-    ensures=lambda c: c.res == FASTEST(c.arg("self")),
-    note="ExecutionStrategies.get_fastest_strategy: a pure function of the strategy list (min by runtime)",
-    props=P,
+    ensures=_extreme_strategy_ens("fastest"),
+    note="verified: min(self._strategies, key=runtime) -- python's min returns the first minimal element; only membership and minimality are modelled",
+    props=P + ("C12",),
 )
-FASTEST = z3.Function("fastest_strategy", z3.IntSort(), z3.IntSort())
 
 Contract(
     "workload.placement.Placement.__init__",
@@ -206,8 +231,11 @@ def nothing_fits(h, V, task, upto_strategy=None, upto_pool=None, cur_strategy=No
 
 
 def hopeless(h, task, now):
-    f = FASTEST(strategies_of(h, task))
-    return us(h.rd(task, TASK, "_deadline")[1]) < us(now) + us(h.rd(f, STRAT, "_runtime")[1])
+    """C12: the task cannot meet its deadline with ANY of its strategies if started now"""
+    sl = strat_list(h, task)
+    j = z3.Int(H.fresh_name("hl_j"))
+    s_j = h.l_elem(StratList, sl, j)
+    return z3.ForAll([j], z3.Implies(z3.And(0 <= j, j < h.c_len(StratList, sl)), us(h.rd(task, TASK, "_deadline")[1]) < us(now) + us(h.rd(s_j, STRAT, "_runtime")[1])), patterns=[s_j])
 
 
 def versions_frozen(h, h0, V):
